@@ -212,6 +212,9 @@ impl<B> Call<WithoutBody, B> {
         assert!(!self.analyzed);
 
         self.state.skip_method_body_check = true;
+        // A body will be sent: unless the request has a content-length header,
+        // the default is chunked transfer (same as Call::with_body()).
+        self.state.writer = BodyWriter::new_chunked();
 
         Call {
             request: self.request,
